@@ -2,6 +2,7 @@ import CG.Proofs.C08
 import CG.Proofs.C08RoundTrip
 import CG.Proofs.C08RoundTripTs
 import CG.Proofs.C08Lagged
+import CG.Proofs.C08LaggedRoundTrip
 #print axioms CG.C08.entry_law
 #print axioms CG.C08.toNumpy_refuses_iff
 #print axioms CG.C08.toNetworkx_refuses_iff
@@ -29,3 +30,8 @@ import CG.Proofs.C08Lagged
 #print axioms CG.C08.lagged_refuses_iff
 #print axioms CG.C08.lagged_entry_law
 #print axioms CG.C08.toNumpyByLag_eq
+#print axioms CG.C08.fromAdjMatrices_toNumpyByLag
+#print axioms CG.C08.fromAdjMatrices_toNumpyByLag_min
+#print axioms CG.C08.fromAdjMatrices_toNumpyByLag_min_refused
+#print axioms CG.C08.fromAdjMatrices_toNumpyByLag_full
+#print axioms CG.C08.lagImage_eq
